@@ -69,6 +69,74 @@ class Frame:
         self.path_base = 0
 
 
+def _own_walk(node):
+    stack = list(ast.iter_child_nodes(node))
+    while stack:
+        n = stack.pop()
+        yield n
+        if isinstance(n, (ast.FunctionDef, ast.AsyncFunctionDef, ast.ClassDef, ast.Lambda)):
+            continue
+        stack.extend(ast.iter_child_nodes(n))
+
+
+def _eager_generator(fnode):
+    """A generator function is executed eagerly: `yield v` statements append to a hidden list that every `return` (and the
+    end of the body) hands back.  The values produced and their order are those of the generator consumed to exhaustion;
+    what is lost is the interleaving with the consumer, which only matters for side effects (the purity rules analyse the
+    source, not this view).  Generators that use the value of a `yield` expression are left alone (not modelled)."""
+    if not isinstance(fnode, (ast.FunctionDef, ast.AsyncFunctionDef)):
+        return fnode
+    ys = [n for n in _own_walk(fnode) if isinstance(n, (ast.Yield, ast.YieldFrom))]
+    if not ys:
+        return fnode
+    stmt_vals = {id(n.value) for n in _own_walk(fnode) if isinstance(n, ast.Expr)}
+    if any(id(y) not in stmt_vals for y in ys):
+        return fnode
+    import copy as _copy
+    new = _copy.deepcopy(fnode)
+    acc = "_yielded_"
+
+    class T(ast.NodeTransformer):
+        def visit_FunctionDef(self, n):
+            return n if n is not new else self.generic_visit(n)
+        visit_AsyncFunctionDef = visit_FunctionDef
+
+        def visit_Lambda(self, n):
+            return n
+
+        def visit_ClassDef(self, n):
+            return n
+
+        def visit_Expr(self, n):
+            v = n.value
+            if isinstance(v, ast.Yield):
+                arg = v.value if v.value is not None else ast.Constant(None)
+                call = ast.Call(ast.Attribute(ast.Name(acc, ast.Load()), "append", ast.Load()), [arg], [])
+                return ast.copy_location(ast.fix_missing_locations(ast.copy_location(ast.Expr(call), n)), n)
+            if isinstance(v, ast.YieldFrom):
+                call = ast.Call(ast.Attribute(ast.Name(acc, ast.Load()), "extend", ast.Load()), [v.value], [])
+                return ast.copy_location(ast.fix_missing_locations(ast.copy_location(ast.Expr(call), n)), n)
+            return n
+
+        def visit_Return(self, n):
+            return ast.copy_location(ast.Return(ast.copy_location(ast.Name(acc, ast.Load()), n)), n)
+    T().visit(new)
+    first = new.body[0]
+    init = ast.Assign([ast.Name(acc, ast.Store())], ast.List([], ast.Load()))
+    ast.copy_location(init, first)
+    ast.fix_missing_locations(init)
+    last = new.body[-1]
+    fin = ast.Return(ast.Name(acc, ast.Load()))
+    ast.copy_location(fin, last)
+    ast.fix_missing_locations(fin)
+    for extra in (init, fin):
+        for sub in ast.walk(extra):
+            if getattr(fnode, "_relpath", None) is not None:
+                sub._relpath = fnode._relpath
+    new.body = [init] + new.body + [fin]
+    return new
+
+
 class Interp:
     def __init__(self, project: Project, config: Config = None):
         self.p = project
@@ -341,6 +409,7 @@ class Interp:
                 nd = inlined(self.p, fi)
             except Exception:
                 nd = fi.node
+        nd = _eager_generator(nd)
         cache[key] = nd
         return nd
 
@@ -726,6 +795,16 @@ class Interp:
         if isinstance(v, DictV):
             if v.generic is None:
                 return sym.Bool(bool(v.d))
+        if isinstance(v, ObjV) and v.cls:
+            # truth of an instance of a repository class: __bool__, else __len__ != 0, else True
+            c = self.p.classes.get(v.cls)
+            for dn in ("__bool__", "__len__"):
+                m = c.lookup(dn, self.p) if c is not None else None
+                if m is not None:
+                    r = self.call_function(m, [v], {}, None)
+                    if isinstance(r, ObjV):
+                        break
+                    return self.truth(r)
         if isinstance(v, (FuncV, ObjV, ModV)):
             return sym.TRUE
         if isinstance(v, Arr):
@@ -862,6 +941,15 @@ class Interp:
             # an object without __iter__ is iterated through __getitem__(0), (1), … until IndexError: follow __getitem__ at a
             # generic position; the positions are those of the array attribute the result is a row of
             c = self.p.classes.get(it.cls)
+            if c is not None and c.lookup("__iter__", self.p) is not None and not getattr(self, "_in_iter_dunder", False):
+                # __iter__ of a repository class (a generator method is executed eagerly): iterate over what it returns
+                self._in_iter_dunder = True
+                try:
+                    got = self.call_function(c.lookup("__iter__", self.p), [it], {}, node)
+                finally:
+                    self._in_iter_dunder = False
+                if not isinstance(got, ObjV):
+                    return self.iteration(got, node)
             if c is not None and c.lookup("__iter__", self.p) is None:
                 g = c.lookup("__getitem__", self.p)
                 if g is not None:
@@ -958,7 +1046,9 @@ class Interp:
             if d is False:
                 return self.exec_block(st.orelse, env) if st.orelse else env
             if trip == bound:
-                raise AnalysisError(f"{fr.fi.qualname}: loop still running after {bound} decided trips")
+                raise AnalysisError(f"{fr.fi.qualname}: loop still running after {bound} decided trips" +
+                                    (" (the run is not exact: unmodelled values or dropped conditions precede it)"
+                                     if (self.unmodelled or self.lossy) else ""))
             ls = dict(continues=[], breaks=[], path_base=len(self.path))
             fr.loop_stack.append(ls)
             n = len(self.path)
@@ -1342,8 +1432,15 @@ class Interp:
                 # numpy stores are in place: every alias of this array object sees the new contents
                 base.axes, base.elem = nv.axes, nv.elem
                 return
+        u = self.unknown("subscript-store", st, (generic_elem(base), generic_elem(v)))
         if name:
-            env[name] = self.unknown("subscript-store", st, (generic_elem(base), generic_elem(v)))
+            env[name] = u
+        elif isinstance(base, Arr):
+            # a store through an attribute / element that is not modelled: the array object (and every alias) now holds
+            # something unknown — never silently the old contents
+            base.elem = u.e
+        else:
+            self.lose("a subscript store on an object reached through an attribute or element was not modelled", st)
         return
 
     def _paired_diag_store(self, base, idx, v: Val, st):
@@ -1441,7 +1538,15 @@ class Interp:
                     raise ShapeError(f"could not broadcast {vsp.concrete} values into {len(data)} positions")
                 vmap[iv] = (viv, vsp.concrete)
             elif kind == "mask":
-                return None  # masked assignment of an array of values is not modelled
+                # A[m] = B[m]: the values were selected by the same mask on an axis of the same length, so the k-th selected
+                # value lands on the k-th selected position — position-wise where(m, B, A)
+                msp, miv = data.axes[0]
+                mcond = sym.subst_ivar(data.elem, miv, (iv, 0))
+                if vsp.key[0] == "sub" and vsp.parent is not None and vsp.parent.same_size(sp) \
+                        and any(sym.subst_ivar(vsp.key[2], x_, (iv, 0)) == mcond for x_ in sorted(sym.free_ivars(vsp.key[2]))):
+                    ve = sym.subst_ivar(ve, viv, (iv, 0))
+                else:
+                    return None  # masked assignment of an array of values selected some other way is not modelled
         cond = sym.TRUE
         for kind, sp, iv, data in region:
             if kind == "mask":
